@@ -101,9 +101,12 @@ def compartment(kind, ts=1):
     if kind & 4:
         # an inert compartment: listed with empty processes / steps / flow / topology
         return {}, {}, {}, {}
-    procs = {'cnt': K['Cnt']({'timestep': ts})}
+    procs, topo = {}, {}
+    if not kind & 8:
+        # (bit 3: a compartment that holds only steps - generated only together with bit 0 or 1)
+        procs['cnt'] = K['Cnt']({'timestep': ts})
+        topo['cnt'] = {'s': ('s',)}
     steps, flow = {}, {}
-    topo = {'cnt': {'s': ('s',)}}
     if kind & 1:
         procs['drv'] = K['Drv']()
         topo['drv'] = {'s': ('s',)}
@@ -147,6 +150,8 @@ def gen_history(rng, nupd, allow_bad=True, only_kinds=None):
         if kind != 'upd' and (kind == 'generate' or (not kids and kind in ('delete', 'divide', 'move'))):
             k = fresh()
             ck = rng.randint(0, 3)
+            if ck and rng.random() < 0.2:
+                ck |= 8           # steps only
             colonies[col][k] = ck
             init = {'s': {'n': rng.randint(0, 9)}} if rng.random() < 0.7 else {}
             if init and rng.random() < 0.5:
@@ -196,6 +201,8 @@ def gen_history(rng, nupd, allow_bad=True, only_kinds=None):
                     ds.append([dk, None, {'s': {'n': rng.randint(20, 29)}} if rng.random() < 0.3 else {}])
                 else:
                     ck = 4 if rng.random() < 0.15 else rng.randint(0, 3)
+                    if ck in (1, 2, 3) and rng.random() < 0.2:
+                        ck |= 8
                     colonies[col][dk] = ck
                     ds.append([dk, ck, {'s': {'n': rng.randint(20, 29)}} if rng.random() < 0.3 else {}])
             return ['divide', k, ds, rng.randint(0, 10 ** 6)]
